@@ -91,6 +91,12 @@ let () =
     if String.length line > 1 && line.[0] = 'H' && line.[1] = ' ' then begin
       let c = parse_line i line in
       let inner_bytes = match c.c_inner with Ok b -> b | Err b -> b in
+      (* in --coq mode only the sample written to the Coq file matters (stdout is
+         not read): skip what will not be part of it *)
+      let skip = coq_out <> None &&
+                 (!coq_n >= coq_max || list_len_int 0 inner_bytes > 200
+                  || list_len_int 0 (match c.c_out with Ok b -> b | Err b -> b) > 300) in
+      if skip then incr idx else begin
       (* correspondence: model vs implementation *)
       let acc_ok = accept c.c_inner c.c_out in
       let crc = crc32c inner_bytes in
@@ -107,6 +113,7 @@ let () =
                  | Ok _, None -> c.c_fsn <> -1
                  | Ok _, Some (n, h) -> n <> c.c_fsn || h <> c.c_fsh) then Some "fields"
         else if c.c_rt = 0 then Some "roundtrip"
+        else if c.c_rt = 3 then Some "unmarshal"   (* model: Unmarshal hands the data to the inner codec unchanged *)
         else if c.c_d = 0 then Some "direct"
         else None in
       (* property monitor on the implementation's output *)
@@ -124,6 +131,7 @@ let () =
         coq_cases := (c, acc_ok, crc, fs_sum, mon) :: !coq_cases
       end;
       incr idx
+      end
     end) (read_lines path);
   match coq_out with
   | None -> ()
